@@ -92,6 +92,7 @@ class Slice:
         """flow-insensitive may-point-to between locals: x -> set of locals whose storage x (or a part of x) may reference"""
         blocks = self.body['blocks']
         pts = {}
+        nargs = self.body['arg_count']
         changed = True
 
         def add(dst, srcs):
@@ -112,7 +113,9 @@ class Slice:
                     if rv['rv'] in ('ref', 'rawptr'):
                         pl = rv['place']
                         if 'deref' in pl['p']:
-                            add(dst, set(pts.get(pl['l'], set())))
+                            # a reborrow through a pointer parameter stands for the parameter's (external) referent: the parameter itself
+                            ext = {pl['l']} if 1 <= pl['l'] <= nargs else set()
+                            add(dst, set(pts.get(pl['l'], set())) | ext)
                         else:
                             add(dst, {pl['l']})
                     else:
